@@ -2002,3 +2002,18 @@ def truth_sym(ex, v):   # noqa: F811
     if isinstance(v, STensor) and 'bool' in v.ghost:
         return v.ghost['bool']
     return _ts2(ex, v)
+
+
+@ext('numpy.isclose')
+def _np_isclose(ex, a, k):
+    """numpy.isclose(a, b) with the default tolerances: |a - b| <= 1e-8 + 1e-5 |b|"""
+    if k.get('rtol') is not None or k.get('atol') is not None or len(a) > 2:
+        raise OutOfSubset('isclose with explicit tolerances')
+    x, y = a[0], a[1]
+    if isinstance(x, (STensor, NP.NPArr)) or isinstance(y, (STensor, NP.NPArr)):
+        raise OutOfSubset('isclose of arrays')
+    xe, ye = real_expr(x), real_expr(y)
+    d = xe - ye
+    ad = z3.If(d < 0, -d, d)
+    ay = z3.If(ye < 0, -ye, ye)
+    return z3.simplify(ad <= z3.RealVal('1e-8') + z3.RealVal('1e-5') * ay)
